@@ -48,6 +48,19 @@ def struct_eq_loose(a: Any, b: Any) -> bool:
     )
 
 
+def in_domain(*ops: Any) -> bool:
+    """False when a declared structure uses a dtype that no JAX array can have in the current mode
+    (float64 with 64-bit mode off): the property quantifies over inputs matching in_structure()."""
+    for op in ops:
+        try:
+            for l in leaves(op.in_structure()) + leaves(op.out_structure()):
+                if jnp.zeros((), l.dtype).dtype != np.dtype(l.dtype):
+                    return False
+        except Exception:  # noqa: BLE001
+            return True
+    return True
+
+
 def struct_of(tree: Any) -> Any:
     return jax.tree.map(lambda l: jax.ShapeDtypeStruct(l.shape, l.dtype), tree)
 
